@@ -71,7 +71,16 @@ def session(rng):
             if not remote:
                 s.ops.append("remote-new %s %d %d" % (spec, CONTRACT, SIGN))
                 remote = True
-            if rng.randrange(2):
+            if rng.randrange(3) == 0:
+                # a ban merged at the second broker and NOT looked up there, then further gossip of about the same
+                # size (another key toggled) merged, only then the banned key is used there
+                s.ops.append("keyban %s %d KM KA 1" % (c, s.nextmid()))
+                s.ops.append("keyban %s %d KM KB 1" % (c, s.nextmid()))
+                s.ops.append("remote-merge")
+                for _ in range(rng.choice([1, 2])):
+                    s.ops.append("keyban %s %d KM KB %d" % (c, s.nextmid(), rng.randrange(2)))
+                    s.ops.append("remote-merge")
+            elif rng.randrange(2):
                 s.ops.append("remote-use KA %s %d" % (hx(b"/a/b/"), W))      # look the key up before the merge
             s.ops.append("remote-merge")
             s.ops.append("remote-use KA %s %d" % (hx(b"/a/b/"), W))
